@@ -42,7 +42,9 @@ Inductive event :=
 | EvBuilderFinish                          (* builder.finish() *)
 | EvWriteStr (s : string)                  (* f.write_str(s) *)
 | EvClone (v : value)                     (* ::core::clone::Clone::clone(&v) *)
-| EvCloneFrom (dst src : value).          (* ::core::clone::Clone::clone_from(&mut dst, &src) *)
+| EvCloneFrom (dst src : value)           (* ::core::clone::Clone::clone_from(&mut dst, &src) *)
+| EvDebugFmt (a : fmt_arg).               (* C20: ::core::fmt::Debug::fmt(&v, f) called DIRECTLY on the formatter
+                                             (no builder): the value writes its own Debug text *)
 
 Inductive res :=
 | RVal (v : value)
@@ -334,6 +336,15 @@ Section Calls.
         | _ => (RStuck, s)
         end
     | ["convert"; "Into"; "into"], [a] => (RVal (i_into I a), s)
+    | ["fmt"; "Debug"; "fmt"], [a; fm] =>
+        (* C20: `::core::fmt::Debug::fmt(data, f)` on a byte slice `data : &[u8]`: <[u8] as Debug>::fmt
+           runs directly on the formatter (any other receiver stays stuck: not interpreted) *)
+        if is_formatter fm then
+          match strip (st_store s) a with
+          | Some (VBytes l) => (RVal VUnit, log (EvDebugFmt (FADebug (VBytes l))) s)
+          | _ => (RStuck, s)
+          end
+        else (RStuck, s)
     | _, _ => (RStuck, s)
     end.
 
